@@ -8,7 +8,11 @@ line per op; same protocol as harness/c16*.cpp.  Imports Model/ and Gen/ only.
 -/
 import SharkVerif.Gen.McTables
 import SharkVerif.Model.McSmo
+import SharkVerif.Model.McSolve
+import SharkVerif.Model.McSimplex
+import SharkVerif.Model.McBias
 import SharkVerif.Model.McLinear
+import Driver.C16L
 open SharkVerif.Mc SharkVerif.Gen
 
 def fbits (x : Float) : String := toString x.toBits.toNat
@@ -92,6 +96,17 @@ def tableInfo (f : String) (c : Nat) : Option (Nat × (Nat → Row α)) :=
   | some t => some (t.width, fun r => t.row r)
   | none => none
 
+/-- the `nu` table of the family (for `performBiasUpdate`) -/
+def nuInfo (f : String) (c : Nat) : Nat → Row α :=
+  match (McTables.table (f ++ "_nu") c : Option (Sparse α)) with
+  | some t => fun r => t.row r
+  | none => fun _ => Row.empty
+
+/-- `biasupd n1 s1 n2 s2 ...`: the bias step, one dyadic rational per class -/
+def parseStep (a : List Int) : Nat → α :=
+  let arr := a.toArray
+  fun c => Scal.ofIntShift (arr.getD (2 * c) 0) (arr.getD (2 * c + 1) 0).toNat
+
 /-- `box F c n Cnum Cshift shrinking kshift | labels(n) lin(n*P) K(n*n)` (all as one flat list of integers) -/
 def mkBox (f : String) (a : List Int) : Option (McBox α) :=
   match a with
@@ -140,6 +155,72 @@ def boxOp (s : McBox α) (op : String) (a : List Int) : Option (McBox α × Stri
     some (s.addDeltaLinear (fun i p => Scal.ofIntShift (arr.getD (i * s.P + p) 0) 0), "")
   | "label", [i] => if i.toNat < s.n then some (s, s!"label={s.labels i.toNat} ") else none
   | "select1", [] => let r := s.selectWorkingSet; some (s, s!"i={r.1} j={r.2.1} viol={Scal.render r.2.2} ")
+  | "solve", [num, shift, maxit] =>
+    -- QpSolver<QpMcBoxDecomp>::solve: the model's `solveLoopWith` (= `solveLoop` for the identity, `solveLoopWith_id`) with the
+    -- vectors re-tabulated after every pass (identity on the valid index ranges)
+    let eps : α := Scal.ofIntShift num shift.toNat
+    let r := solveLoopWith normalize eps maxit.toNat { s := s, iter := 0, shrinkCounter := 0, stop := .running }
+    let code := match r.stop with | .running => 0 | .accuracy => 1 | .maxIter => 4 | .stuck => 99
+    some (r.s, s!"it={r.iter} stop={code} acc={Scal.render r.accuracy} ")
+  | _, _ => none
+end
+
+/-! ### decomposition-class ops (QpMcSimplexDecomp) -/
+section
+variable {α : Type} [Add α] [Sub α] [Mul α] [Div α] [Neg α] [NatCast α] [OfScientific α]
+  [LT α] [LE α] [DecidableLT α] [DecidableLE α] [BEq α] [Scal α]
+
+def normalizeX (s : McSx α) : McSx α :=
+  let b := normalize s.b
+  let av := mkArr b.n s.varsum
+  { b := b, varsum := arrFn av (0.0 : α) }
+
+def dumpSx (s : McSx α) : String :=
+  let b := s.b
+  let nv := b.numVars
+  let vec (f : Nat → α) := ",".intercalate ((List.range nv).map fun v => Scal.render (f v))
+  let nats (f : Nat → Nat) := ".".intercalate ((List.range b.P).map fun p => toString (f p))
+  let exs := ";".intercalate ((List.range b.n).map fun i =>
+    let e := b.ex i; s!"{e.index}:{e.y}:{e.active}:{Scal.render (s.vsum i)}:{nats e.var}:{nats e.avar}")
+  let vs := ";".intercalate ((List.range nv).map fun v =>
+    let x := b.vars v; s!"{x.i}:{x.p}:{x.index}:{Scal.render x.diagonal}")
+  s!"aE={b.activeEx} aV={b.activeVar} un={if b.unshrinked then 1 else 0} A=[{vec b.alpha}] G=[{vec b.grad}] L=[{vec b.lin}] E=[{exs}] V=[{vs}]"
+
+def mkSx (f : String) (a : List Int) : Option (McSx α) :=
+  match (mkBox f a : Option (McBox α)) with
+  | some b => some (normalizeX { b := b, varsum := fun _ => (0.0 : α) })
+  | none => none
+
+def sxOp (s : McSx α) (op : String) (a : List Int) : Option (McSx α × String) :=
+  match op, a with
+  | "xsmo", [v, w] =>
+    let v := v.toNat; let w := w.toNat
+    if v < s.b.activeVar ∧ w < s.b.activeVar then some (s.updateSMO v w, "") else none
+  | "xdeactvar", [v] =>
+    let v := v.toNat
+    if v < s.b.activeVar then some (s.deactivateVariable v, "") else none
+  | "xkillex", [e] =>
+    let e := e.toNat
+    if e < s.b.n then
+      some ((List.range (s.b.ex e).active).foldl
+        (fun s _ => s.deactivateVariable ((s.b.ex e).avar ((s.b.ex e).active - 1))) s, "")
+    else none
+  | "xunshrink", [] => some (s.unshrink, "")
+  | "xshrink", [num, shift] =>
+    let r := s.shrink (Scal.ofIntShift num shift.toNat)
+    some (r.1, s!"ret={if r.2 then 1 else 0} ")
+  | "xadddelta", ds =>
+    if ds.length != s.b.n * s.b.P then none else
+    let arr := ds.toArray
+    some (s.addDeltaLinear (fun i p => Scal.ofIntShift (arr.getD (i * s.b.P + p) 0) 0), "")
+  | "xlabel", [i] => if i.toNat < s.b.n then some (s, s!"label={s.b.labels i.toNat} ") else none
+  | "xkkt", [] => some (s, s!"kkt={Scal.render s.checkKKT} ")
+  | "xselect", [] => let r := s.selectWorkingSet; some (s, s!"i={r.1} j={r.2.1} viol={Scal.render r.2.2} ")
+  | "xsolve", [num, shift, maxit] =>
+    let eps : α := Scal.ofIntShift num shift.toNat
+    let r := solveLoopXWith normalizeX eps maxit.toNat { s := s, iter := 0, shrinkCounter := 0, stop := .running }
+    let code := match r.stop with | .running => 0 | .accuracy => 1 | .maxIter => 4 | .stuck => 99
+    some (r.s, s!"it={r.iter} stop={code} acc={Scal.render r.accuracy} ")
   | _, _ => none
 end
 
@@ -153,6 +234,9 @@ def sameState (f : McBox Float) (q : McBox Rat) : Bool :=
   (List.range nv).all (fun v => (f.vars v).i == (q.vars v).i && (f.vars v).p == (q.vars v).p && (f.vars v).index == (q.vars v).index) &&
   (List.range f.n).all (fun i => (f.ex i).index == (q.ex i).index && (f.ex i).active == (q.ex i).active &&
     (List.range f.P).all fun p => (f.ex i).var p == (q.ex i).var p && (f.ex i).avar p == (q.ex i).avar p)
+
+def sameStateX (f : McSx Float) (q : McSx Rat) : Bool :=
+  sameState f.b q.b && (List.range f.b.n).all fun i => floatToRat (f.varsum i) == some (q.varsum i)
 
 /-- data set sent by `data n d k coords labels` (coordinates with offset 8) -/
 structure DataSet where
@@ -171,6 +255,13 @@ structure LinPair where
 structure St where
   bf : Option (McBox Float) := none
   bq : Option (McBox Rat) := none
+  xf : Option (McSx Float) := none
+  xq : Option (McSx Rat) := none
+  ml : C16L.St := {}
+  nuf : Nat → Row Float := fun _ => Row.empty
+  nuq : Nat → Row Rat := fun _ => Row.empty
+  xnuf : Nat → Row Float := fun _ => Row.empty
+  xnuq : Nat → Row Rat := fun _ => Row.empty
   ds : DataSet := {}
   lin : Option LinPair := none
 
@@ -206,6 +297,9 @@ def parseInts (l : List String) : Option (List Int) := l.mapM String.toInt?
 
 def step (st : St) (line : String) : St × String :=
   let toks := (line.trimAscii.toString.splitOn " ").filter (· ≠ "")
+  match C16L.step st.ml toks with
+  | some (ml', o) => ({ st with ml := ml' }, o)
+  | none =>
   match toks with
   | [] => (st, "")
   | ["tables", name, c] =>
@@ -260,20 +354,56 @@ def step (st : St) (line : String) : St × String :=
       | .ova => (st, "path=ova")
       | .mc fam stz sx => (st, s!"path=mc fam={fam} stz={if stz then 1 else 0} simplex={if sx then 1 else 0} linear={McTables.linearDispatch k t}")
     | _, _ => (st, "bad-op")
+  | "sbox" :: f :: rest =>
+    match parseInts rest with
+    | none => (st, "bad-op")
+    | some a =>
+      match (mkSx f a : Option (McSx Float)), (mkSx f a : Option (McSx Rat)) with
+      | some xf, some xq => ({ st with xf := some xf, xq := some xq, xnuf := nuInfo f (a.headD 0).toNat, xnuq := nuInfo f (a.headD 0).toNat }, dumpSx xf ++ (if sameStateX xf xq then " #rat=ok" else " #rat=diff"))
+      | _, _ => (st, "bad-op")
   | "box" :: f :: rest =>
     match parseInts rest with
     | none => (st, "bad-op")
     | some a =>
       match (mkBox f a : Option (McBox Float)), (mkBox f a : Option (McBox Rat)) with
-      | some bf, some bq => ({ bf := some bf, bq := some bq }, dumpBox bf ++ (if sameState bf bq then " #rat=ok" else " #rat=diff"))
+      | some bf, some bq => ({ st with bf := some bf, bq := some bq, nuf := nuInfo f (a.headD 0).toNat, nuq := nuInfo f (a.headD 0).toNat }, dumpBox bf ++ (if sameState bf bq then " #rat=ok" else " #rat=diff"))
       | _, _ => (st, "bad-op")
+  | "biasupd" :: rest =>
+    match parseInts rest, st.bf, st.bq with
+    | some a, some bf, some bq =>
+      if a.length != 2 * bf.c then (st, "bad-op") else
+      let bf' := normalize (bf.performBiasUpdate st.nuf (parseStep a))
+      let bq' := normalize (bq.performBiasUpdate st.nuq (parseStep a))
+      ({ st with bf := some bf', bq := some bq' }, dumpBox bf' ++ (if sameState bf' bq' then " #rat=ok" else " #rat=diff"))
+    | _, _, _ => (st, "bad-op")
+  | "xbiasupd" :: rest =>
+    match parseInts rest, st.xf, st.xq with
+    | some a, some xf, some xq =>
+      if a.length != 2 * xf.b.c then (st, "bad-op") else
+      let xf' := normalizeX (xf.performBiasUpdate st.xnuf (parseStep a))
+      let xq' := normalizeX (xq.performBiasUpdate st.xnuq (parseStep a))
+      ({ st with xf := some xf', xq := some xq' }, dumpSx xf' ++ (if sameStateX xf' xq' then " #rat=ok" else " #rat=diff"))
+    | _, _, _ => (st, "bad-op")
   | op :: rest =>
+    if op.startsWith "x" then
+      match parseInts rest, st.xf, st.xq with
+      | some a, some xf, some xq =>
+        match sxOp xf op a, sxOp xq op a with
+        | some (xf', out), some (xq', _) =>
+          let xf' := normalizeX xf'; let xq' := normalizeX xq'
+          ({ st with xf := some xf', xq := some xq' }, out ++ dumpSx xf' ++ (if sameStateX xf' xq' then " #rat=ok" else " #rat=diff"))
+        | none, _ => (st, "bad-op")
+        | some (xf', out), none =>
+          let xf' := normalizeX xf'
+          ({ st with xf := some xf' }, out ++ dumpSx xf' ++ " #rat=diff")
+      | _, _, _ => (st, "bad-op")
+    else
     match parseInts rest, st.bf, st.bq with
     | some a, some bf, some bq =>
       match boxOp bf op a, boxOp bq op a with
       | some (bf', out), some (bq', _) =>
         let bf' := normalize bf'; let bq' := normalize bq'
-        ({ bf := some bf', bq := some bq' }, out ++ dumpBox bf' ++ (if sameState bf' bq' then " #rat=ok" else " #rat=diff"))
+        ({ st with bf := some bf', bq := some bq' }, out ++ dumpBox bf' ++ (if sameState bf' bq' then " #rat=ok" else " #rat=diff"))
       | none, _ => (st, "bad-op")
       | some (bf', out), none =>
         -- the exact model rejects what the Float model accepts: the states have diverged
